@@ -11,6 +11,7 @@ import (
 	"encoding/json"
 	"encoding/pem"
 	"fmt"
+	"math/big"
 	"os"
 	"strings"
 	"time"
@@ -245,6 +246,17 @@ func newRegSpec(r *RNG, format string, credAlg int) *RegSpec {
 }
 
 // admissible credential key algorithms per format (what a conforming authenticator of that format can produce)
+// otherKindAlg: an algorithm whose keys are of another kind than `kind` (ec / rsa / ed)
+func otherKindAlg(r *RNG, v int, kind string) int {
+	switch kind {
+	case "ec":
+		return variant(r, v, []int{algRS256, algEdDSA, algPS256})
+	case "rsa":
+		return variant(r, v, []int{algES256, algEdDSA, algES384})
+	}
+	return variant(r, v, []int{algRS256, algES256, algPS256})
+}
+
 func credAlgsFor(format string) []int {
 	switch format {
 	case "fido-u2f":
@@ -357,6 +369,11 @@ func buildRegistration(r *RNG, s *RegSpec) *RegBuilt {
 		h := hostOf(s.Origin)
 		cd.Origin = variant(r, s.Var, []string{"https://evil.example", "https://evil" + h, "https://" + h + ".evil.com", "https://evil.com/" + h, "https://" + h + "@evil.com", "", "https://evil.com?" + h, "https://evil.com#" + h, "null", "https://www.not" + h, "https://x" + h + ":443", "https://login.evil" + h, "https://attacker.test.", "https://" + h + ".", "https://login.attacker.test.:8443", "https://" + h + "..", "https://evil.example./", parentOrigin(h)})
 	}
+	if s.d("cd.memberAbsent") {
+		// one of the three members is not in the document at all, or is null: the decoded member is the empty string, whatever a
+		// decoder that reuses its target may have left there from an earlier ceremony
+		cd.Absent = map[string]string{variant(r, s.Var, []string{"type", "challenge", "origin"}): pick(r, []string{"omit", "omit", "null"})}
+	}
 	b.CDJ = cd.JSON(r)
 	if s.d("cd.malformed") {
 		// not one JSON object: trailing data after the object (the signature / hash covers exactly these bytes), truncated, another value
@@ -383,6 +400,24 @@ func buildRegistration(r *RNG, s *RegSpec) *RegBuilt {
 			kvs = append(kvs, cborInt(3), cborInt(0))
 		}
 		key = cborMap(kvs...)
+	}
+	if s.d("key.algOfOtherType") {
+		// honest key material under an algorithm that belongs to another key type (an RSA key that says ES256, an EC2 key that says
+		// RS256 / EdDSA, an OKP key that says ES256 / PS256), with that algorithm among pubKeyCredParams: not a supported key
+		s.Algs = allAlgs
+		var foreign int64
+		switch cred.Kind {
+		case "rsa":
+			foreign = int64(variant(r, s.Var, []int{algES256, algES384, algES512, algEdDSA}))
+			key = cborMap(cborInt(1), cborInt(3), cborInt(3), cborInt(foreign), cborInt(-1), cborBytes(cred.RSA.N.Bytes()), cborInt(-2), cborBytes(big.NewInt(int64(cred.RSA.E)).Bytes()))
+		case "ec":
+			foreign = int64(variant(r, s.Var, []int{algRS256, algPS256, algEdDSA, algRS1, algPS512}))
+			size := (cred.EC.Curve.Params().BitSize + 7) / 8
+			key = cborMap(cborInt(1), cborInt(2), cborInt(3), cborInt(foreign), cborInt(-1), cborInt(int64(cred.Crv)), cborInt(-2), cborBytes(fixed(cred.EC.X, size)), cborInt(-3), cborBytes(fixed(cred.EC.Y, size)))
+		default:
+			foreign = int64(variant(r, s.Var, []int{algES256, algRS256, algPS256, algES512}))
+			key = cborMap(cborInt(1), cborInt(1), cborInt(3), cborInt(foreign), cborInt(-1), cborInt(6), cborInt(-2), cborBytes(cred.Ed.Public().(ed25519.PublicKey)))
+		}
 	}
 	if s.d("certKey.sameXYOtherCurve") && cred.Kind == "ec" {
 		crv := map[int]int{algES384: 2, algES512: 3}[s.CredAlg]
@@ -632,6 +667,13 @@ func buildRegistration(r *RNG, s *RegSpec) *RegBuilt {
 		}
 	case "android-key":
 		certKey := cred
+		akAlg := s.CredAlg
+		if s.d("ak.certKeyOtherKind") {
+			// the certificate holds a key of ANOTHER kind than the credential key (RSA against EC2 / OKP and so on); the statement is
+			// consistently made with the certificate's key, so the key comparison is reached
+			akAlg = otherKindAlg(r, s.Var, cred.Kind)
+			certKey = genKeyPair(r, akAlg)
+		}
 		if s.d("ak.certKeyOther") {
 			certKey = genKeyPair(r, s.CredAlg)
 			if certKey.Kind == "rsa" {
@@ -686,16 +728,19 @@ func buildRegistration(r *RNG, s *RegSpec) *RegBuilt {
 		der := makeCert(certKey.Public(), CertSpec{Subject: pkix.Name{CommonName: "Android Keystore Key"}, Extensions: exts})
 		signer := certKey
 		if s.d("sig.otherKey") {
-			signer = genKeyPair(r, s.CredAlg)
+			signer = genKeyPair(r, akAlg)
 			if signer.Kind == "rsa" {
 				for signer.RSA == certKey.RSA {
-					signer = genKeyPair(r, s.CredAlg)
+					signer = genKeyPair(r, akAlg)
 				}
 			}
 		}
-		b.Stmt = stmtOf(cborText("alg"), algItem(s, int64(s.CredAlg)), cborText("sig"), sigItem(r, s, mkSig(signer, s.CredAlg, signed)), cborText("x5c"), x5cOf(leafFirstOrSecond(s, der)...))
+		b.Stmt = stmtOf(cborText("alg"), algItem(s, int64(akAlg)), cborText("sig"), sigItem(r, s, mkSig(signer, akAlg, signed)), cborText("x5c"), x5cOf(leafFirstOrSecond(s, der)...))
 	case "apple":
 		certKey := cred
+		if s.d("apple.certKeyOtherKind") {
+			certKey = genKeyPair(r, otherKindAlg(r, s.Var, cred.Kind))
+		}
 		if s.d("apple.certKeyOther") {
 			certKey = genKeyPair(r, s.CredAlg)
 			if certKey.Kind == "rsa" {
